@@ -441,6 +441,14 @@ class Multiplexer(wiring.Component):
                     chunk = Multiplexer._Shadow.Chunk(self, chunk_offset, chunk_registers)
                     self._chunks[chunk_offset] = chunk
             else:
+                # Doubling the shadow only helps while it adds address bits to the decoding scheme.
+                # Past that point (which can only be reached by registers that are not naturally
+                # aligned), the constraint cannot be satisfied.
+                if self._size >= 2 ** ceil_log2(max(r.stop for r in self._ranges)):
+                    raise ValueError(f"Shadow register {self.name!r} cannot be balanced so that at "
+                                     f"most {self.overlaps} other CSR registers share a chunk; "
+                                     f"registers must be naturally aligned or the overlap "
+                                     f"constraint must be relaxed")
                 self._size *= 2
                 self.prepare()
 
